@@ -132,7 +132,7 @@ func genClaimExpr(g *exprgen.G, r interface{ Intn(int) int }) string {
 			}
 			e = wrap(b) + " " + op + " " + wrap(b2)
 		case "-", "/", "%", "+":
-			if op == "%" && (strings.ContainsAny(x, "pqf") || strings.ContainsAny(y, "pqst")) {
+			if (op == "%" || op == "/") && (strings.ContainsAny(x, "pqf") || strings.ContainsAny(y, "pqst")) {
 				op = "-"
 			}
 			if strings.ContainsAny(x+y, "st") && !strings.Contains(x+y, "xs") && !strings.Contains(x+y, "len") {
@@ -304,7 +304,7 @@ func runExprClaims(meta *common.Meta, seed int64, outDir string, n int) {
 	rg := common.NewRand(seed, "c12-grid")
 	var dcs []*exprgen.DiffCase
 	for _, f := range flags {
-		node := findFlagged(rets[f.c.fn], f.pos, f.checker)
+		node := findFlagged(l, rets[f.c.fn], f.pos, f.checker, f.text)
 		if node == nil {
 			meta.Fail("C12/"+f.checker+"/position", "diagnostic position does not identify the flagged expression", map[string]interface{}{"expr": f.c.src, "message": f.text})
 			continue
@@ -351,7 +351,7 @@ func runExprClaims(meta *common.Meta, seed int64, outDir string, n int) {
 var impureCallRe = regexp.MustCompile(`\b(fi|gi|hi|fu|ff|hf|fs|fb|fbs|fxs)\(`)
 
 // findFlagged locates the expression a diagnostic is about: the outermost node of the right kind starting at pos.
-func findFlagged(root ast.Expr, pos token.Pos, checker string) ast.Expr {
+func findFlagged(l *exprgen.Linted, root ast.Expr, pos token.Pos, checker, msg string) ast.Expr {
 	var found ast.Expr
 	ast.Inspect(root, func(n ast.Node) bool {
 		if found != nil || n == nil {
@@ -380,7 +380,9 @@ func findFlagged(root ast.Expr, pos token.Pos, checker string) ast.Expr {
 						}
 					}
 				case "dupSubExpr":
-					found = e
+					if strings.Contains(msg, "`"+b.Op.String()+"`") && l.Text(b.X) == l.Text(b.Y) {
+						found = e
+					}
 				}
 			}
 		}
@@ -650,7 +652,7 @@ func runCaseOrder(meta *common.Meta, seed int64, outDir string, n int) {
 	for _, line := range strings.Split(strings.TrimSpace(out), "\n") {
 		var name string
 		var vi, arm int
-		if _, err := fmt.Sscanf(line, "%q %d %d", &name, &vi, &arm); err != nil {
+		if _, err := fmt.Sscanf(line, "%s %d %d", &name, &vi, &arm); err != nil {
 			continue
 		}
 		evals++
